@@ -70,6 +70,9 @@ def rename_map(base, cur):
             if m.get(a, b) != b:
                 return None
             m[a] = b
+    # names merely permuted among themselves: statements were reordered, nothing was renamed
+    if m and all(b in base for b in m.values()):
+        return None
     # a new name must not collide with an unrenamed old one
     for a, b in m.items():
         if b in base and m.get(b) is None and b != a:
@@ -561,6 +564,8 @@ class Unit:
         if 'R15' in rules:
             text = R.r15_iter_wrappers(text, log)
         text = R.r18_enumerate(text, log)
+        if 'R19' in rules:
+            text = R.r19_extend_cloned(text, log)
         if 'R1' in rules:
             text = R.r1_erase_guards(text, log, 'selfmut' in flags)
             text = R.r1_erase_ctor(text, log)
@@ -838,6 +843,37 @@ class Unit:
                     elif t0[k] == ';':
                         last = k + 1
                 k += 1
+            # block statements (for / while / loop / if-else / match / bare blocks) after the last `;` are statements, not the tail,
+            # unless nothing follows them
+            def _skip_ws(k_):
+                while k_ < close and (m0[k_] != CODE or t0[k_] in ' \t\r\n'):
+                    k_ += 1
+                return k_
+            while True:
+                k_ = _skip_ws(last)
+                mkw = re.match(r'(for|while|loop|if|match|unsafe)\b|\{', t0[k_:close])
+                if not mkw:
+                    break
+                ob_ = k_
+                while ob_ < close and not (m0[ob_] == CODE and t0[ob_] == '{'):
+                    if m0[ob_] == CODE and t0[ob_] in '([':
+                        ob_ = match_close(t0, m0, ob_)
+                    ob_ += 1
+                if ob_ >= close:
+                    break
+                e_ = match_close(t0, m0, ob_) + 1
+                while True:
+                    n_ = _skip_ws(e_)
+                    if t0.startswith('else', n_) and mkw.group(0) == 'if':
+                        ob2 = n_
+                        while ob2 < close and not (m0[ob2] == CODE and t0[ob2] == '{'):
+                            ob2 += 1
+                        e_ = match_close(t0, m0, ob2) + 1
+                    else:
+                        break
+                if _skip_ws(e_) >= close:
+                    break       # the block is itself the tail expression
+                last = e_
             tail = t0[last:close]
             if not tail.strip():
                 self.lost_anchors.append('%s: no tail expression to name' % path)
